@@ -25,6 +25,7 @@ type c04Params struct {
 	Writers  int
 	Epochs   int
 	Teardown []string // how each epoch but the last ends
+	Hold     string   // "3" | "local0" | "remote0": which side makes the negotiated hold time 0
 	Seed     uint64
 	Hook     int
 }
@@ -100,6 +101,13 @@ func c04World(t *testing.T, p c04Params) rt.Result {
 	out := hz.Run(t, hz.Opts{Seed: p.Seed, HookMode: p.Hook, Limit: time.Hour}, func(w *hz.World) {
 		ps := hz.StdPeer("10.0.1.1")
 		ps.Hold = 3
+		rhold := uint16(3)
+		switch p.Hold {
+		case "local0":
+			ps.Hold = 0
+		case "remote0":
+			rhold = 0
+		}
 		ps.Passive = p.Dir == "in"
 		ps.IdleHold = time.Second
 		ps.Cfg.ProbeWriteInClose = true
@@ -170,7 +178,7 @@ func c04World(t *testing.T, p c04Params) rt.Result {
 				}
 			}
 			conns = append(conns, rc)
-			if !rc.Handshake(ps.RemoteAS, 3, remoteIDu) {
+			if !rc.Handshake(ps.RemoteAS, rhold, remoteIDu) {
 				w.Violate("epoch %d: handshake failed: %s", ep, typesOf(rc.Msgs()))
 				return
 			}
@@ -202,6 +210,9 @@ func c04World(t *testing.T, p c04Params) rt.Result {
 			td := "close"
 			if ep < len(p.Teardown) {
 				td = p.Teardown[ep]
+			}
+			if td == "silent" && p.Hold != "3" {
+				td = "cease" // a hold time of 0 never expires
 			}
 			for w.Now() < end {
 				time.Sleep(time.Duration(100+r.IntN(700)) * time.Millisecond)
@@ -355,7 +366,7 @@ func c04World(t *testing.T, p c04Params) rt.Result {
 			w.Violate("plugin saw %d sessions, scenario established %d", len(ss), p.Epochs)
 		}
 	})
-	return worldResult(out, nOK > 0, fmt.Sprintf("|%s w%d e%d %v", p.Dir, p.Writers, p.Epochs, p.Teardown),
+	return worldResult(out, nOK > 0, fmt.Sprintf("|%s w%d e%d %v %s", p.Dir, p.Writers, p.Epochs, p.Teardown, p.Hold),
 		map[string]int{"writes_ok": nOK, "writes_err": nErr, "updates_on_wire": nWire, "worlds": 1})
 }
 
@@ -376,6 +387,7 @@ func TestC04(t *testing.T) {
 			}
 			p.Teardown = append(p.Teardown, td)
 		}
+		p.Hold = []string{"3", "3", "local0", "remote0"}[r.IntN(4)]
 		runCase(t, "writers", i, p, func(t *testing.T) rt.Result { return c04World(t, p) })
 	}
 }
